@@ -23,7 +23,7 @@ def case_list(tier, seed):
 def evaluate(chk, run):
     stats = {}
     idx = [ri for ri, r in enumerate(run.records) if r["res"].get("ok")]
-    tt = [(run.records[ri]["res"]["text"], puml.events_of(run.defs[run.records[ri]["di"]])) for ri in idx]
+    tt = [(run.records[ri]["res"]["text"], {t for j in run.rec_jobs(run.records[ri]) for _i, t, _p in j}) for ri in idx]
     verdicts = pumlsyn.check_texts(tt, stats=stats, coverage=True)
     agg = {}
     for ri, v in zip(idx, verdicts):
@@ -44,7 +44,8 @@ def evaluate(chk, run):
         d = run.defs[r["di"]]
         chk.violation(name, sig, {"definition": puml.to_text(d), "k": r["k"], "presentation": r["present"],
                                   "uuid_seed": r["uuid_seed"], "hashseed": run.hashseed, "emitted": r["res"]["text"],
-                                  "input_types": sorted(puml.events_of(d)), "verdict": v,
+                                  "input_types": sorted({t for j in run.rec_jobs(r) for _i, t, _p in j}),
+                                  "subset_of_job_set": r.get("sub"), "verdict": v,
                                   "variants_failing": len(lst)}, ast=d)
     return len(idx), stats
 
@@ -62,7 +63,8 @@ def run(chk, tier, seed):
     named = case_list(tier, seed)
     npres = 2 if tier == "quick" else 3
     pres = [le.presentation(seed, i) for i in range(npres)]
-    lr = le.LearnRun(named, (1, 2), pres, seed=seed, max_jobs=400 if tier == "quick" else 2000).run()
+    subsets = {"all_upto": 6, "sampled": 1} if tier == "quick" else {"all_upto": 8, "sampled": 3}
+    lr = le.LearnRun(named, (1, 2), pres, seed=seed, max_jobs=400 if tier == "quick" else 2000, subsets=subsets).run()
     ndocs, stats = evaluate(chk, lr)
     nstr, gr = grammar_vs_parser(6 if tier == "quick" else 7)
     failed = sum(1 for r in lr.records if not r["res"].get("ok"))
